@@ -25,11 +25,33 @@ import (
 	"github.com/yandex/pandora/core"
 	"github.com/yandex/pandora/core/aggregator"
 	"github.com/yandex/pandora/core/aggregator/netsample"
+	"github.com/yandex/pandora/core/config"
 	"github.com/yandex/pandora/core/coreutil"
 	"github.com/yandex/pandora/core/datasink"
+	coreimport "github.com/yandex/pandora/core/import"
 )
 
 type memSink struct{ f *trackFile }
+
+var confImportOnce sync.Once
+
+// confAggregator: what pandora does with the `result:` section of a pool's config
+func confAggregator(opts map[string]interface{}) (core.Aggregator, error) {
+	confImportOnce.Do(func() { coreimport.Import(afero.NewOsFs()) })
+	var holder struct {
+		Result core.Aggregator `config:"result" validate:"required"`
+	}
+	if err := config.DecodeAndValidate(map[string]interface{}{"result": opts}, &holder); err != nil {
+		if os.Getenv("C06_DEBUG") != "" {
+			fmt.Fprintln(os.Stderr, "conf error:", err)
+		}
+		return nil, err
+	}
+	if holder.Result == nil {
+		return nil, errors.New("decoded aggregator is nil")
+	}
+	return holder.Result, nil
+}
 
 func (m *memSink) OpenSink() (io.WriteCloser, error) { return m.f, nil }
 
@@ -242,6 +264,15 @@ func (t *failFs) Create(name string) (afero.File, error) {
 	return t.file, nil
 }
 
+func (t *failFs) OpenFile(name string, flag int, perm os.FileMode) (afero.File, error) {
+	f, err := t.Fs.OpenFile(name, flag, perm)
+	if err != nil {
+		return nil, err
+	}
+	t.file = &failSink{trackFile: &trackFile{File: f, closeErr: t.closeErr}, limit: t.limit}
+	return t.file, nil
+}
+
 type failMemSink struct{ f *failSink }
 
 func (m *failMemSink) OpenSink() (io.WriteCloser, error) { return m.f, nil }
@@ -277,6 +308,14 @@ func runQueue(kv map[string]string) string {
 	jit := int64(atoi(kv["jit"]))
 	late := kv["late"] == "1"
 	useFile := kv["sink"] == "file"
+	// conf=1|2 (round 4): the aggregator is built the way pandora builds it — from an option map through the plugin
+	// registry (core/import, core/plugin, core/config: option names, struct tags, default-config functions, validation,
+	// the string → duration / data-size hooks) — over the real file system; conf=2: only the required options, the rest
+	// are the registered defaults
+	useConf := atoi(kv["conf"])
+	if useConf > 0 {
+		useFile = true
+	}
 	failAfter := atoi(kv["fail"])
 	closeErr := kv["closeerr"] == "1"
 	borrow := atoi(kv["borrow"])
@@ -319,6 +358,29 @@ func runQueue(kv map[string]string) string {
 		conf.SampleQueueSize = q
 		conf.FlushTime = flush
 		conf.Buffer = bufConf(atoi(kv["buf"]))
+		if useConf > 0 {
+			opts := map[string]interface{}{"type": "phout", "destination": path, "id": true}
+			if useConf == 1 {
+				opts["sample-queue-size"] = q
+				opts["flush-time"] = flush.String()
+				if bs := bufConf(atoi(kv["buf"])).BufferSize; bs != 0 {
+					opts["buffer-size"] = fmt.Sprintf("%dkb", int(bs)/1024)
+				}
+			}
+			ca, err := confAggregator(opts)
+			if err != nil {
+				return "err=conf:" + drv_clean(err.Error())
+			}
+			run = func(ctx context.Context) error { return ca.Run(ctx, core.AggregatorDeps{Log: zap.NewNop()}) }
+			report = func(gi, ki int) {
+				var f [10]int64
+				for i := range f {
+					f[i] = qField(gi, ki, i)
+				}
+				ca.Report(buildSample(1_700_000_000_000_000_000+int64(ki)*1_000_000, "r"+strconv.Itoa(gi), uint64(ki), f, "api"))
+			}
+			break
+		}
 		var fs afero.Fs
 		switch {
 		case useFile:
@@ -360,6 +422,33 @@ func runQueue(kv map[string]string) string {
 			}
 		}
 	case "jsonlines":
+		if useConf > 0 {
+			// "json" is registered as an alias of "jsonlines"
+			opts := map[string]interface{}{"type": []string{"jsonlines", "json"}[int(jit)%2],
+				"sink": map[string]interface{}{"type": "file", "path": path}}
+			if useConf == 1 {
+				opts["sample-queue-size"] = q
+				opts["flush-interval"] = flush.String()
+				if bs := bufConf(atoi(kv["buf"])).BufferSize; bs != 0 {
+					// a number, not "64kb": the jsonlines config has TWO squashed fields named buffer-size, an int
+					// (EncoderAggregatorConfig) and a data size (the encoder's) — only a plain number decodes into both
+					opts["buffer-size"] = int(bs)
+				}
+			}
+			ca, err := confAggregator(opts)
+			if err != nil {
+				return "err=conf:" + drv_clean(err.Error())
+			}
+			run = func(ctx context.Context) error { return ca.Run(ctx, core.AggregatorDeps{Log: zap.NewNop()}) }
+			report = func(gi, ki int) {
+				f := make([]int64, 10)
+				for i := range f {
+					f[i] = qField(gi, ki, i)
+				}
+				ca.Report(&jsample{R: gi, K: ki, Tag: "r" + strconv.Itoa(gi), F: f})
+			}
+			break
+		}
 		conf := aggregator.DefaultJSONLinesAggregatorConfig()
 		switch {
 		case useFile:
